@@ -20,9 +20,10 @@ from gv.ref import core as ref
 PID = "C09"
 TECHNIQUE = "property-based testing over training histories: a generated equivariant architecture is trained by the library's own ml.train / train_step (generated data, batch schedule, optimiser incl. weight decay, loss, step count), then the C07 metamorphic equivariance oracle is applied to the returned model and every invariant filter bank must be a common positive rescaling of the original"
 RULE = (
-    "Hypothesis draws a small C07 architecture (ConvBlock / ResNet / UNet / DilResNet, signatures incl. pseudo-types, normalisation on/off, bias modes), a data set of 4..8 random samples, a batch size dividing it, "
+    "Hypothesis draws (3 in 4 cases) a small C07 architecture (ConvBlock / ResNet / UNet / DilResNet, signatures incl. pseudo-types, normalisation on/off, bias modes), a data set of 4..8 random samples, a batch size dividing it, "
     "an optimiser in {sgd(lr), adam(lr), adamw(lr, weight_decay in [0.01,0.3])} with lr in [1e-2,1e-1], a loss in {smse, normalized smse}, and 1..3 epochs through ml.train with EpochStop or a drawn number of direct "
-    "train_step calls. The parameters are first moved away from initialisation (+0.2 N(0,1)). After the history: (a) the returned model passes the C07 oracle (generating set of G + 3 drawn elements, relative 2e-3, "
+    "train_step calls; in 1 of 4 cases the model is instead a GroupAverage around a trainable conventional ResNet (top level, or nested behind an equivariant ConvBlock stem) whose averaging is on either through "
+    "always_average or through eqx.nn.inference_mode, trained by ml.train. The parameters are first moved away from initialisation (+0.2 N(0,1)). After the history: (a) the returned model passes the C07 oracle (generating set of G + 3 drawn elements, relative 2e-3, "
     "robust re-draw, translations on tori); (b) every invariant-filter leaf equals s * its original with one common s>0 across the model (relative 1e-5; s=1 for sgd/adam); (c) some trainable leaf moved by >1e-3 "
     "(otherwise the history is trivial). Non-trivial: >=2 optimiser steps and max parameter change >1e-2; distinct key = (architecture, optimiser, batch schedule, steps, loss)."
 )
@@ -36,9 +37,61 @@ CONFIG = {
 }
 
 
+class _Composite(models.MultiImageModule):
+    """An equivariant stem followed by a group-averaged conventional network (equivariant only while averaging is on)."""
+
+    stem: models.ConvBlock
+    avg: models.GroupAverage
+
+    def __init__(self, stem, avg):
+        self.stem = stem
+        self.avg = avg
+
+    def __call__(self, x, aux_data=None):
+        h, _ = self.stem(x)
+        return self.avg(h, aux_data)
+
+
+def _draw_average_cfg(data, tier):
+    d = 2
+    sig = gen.draw_signature(data, d, kmax=1, min_types=1, max_types=2, cmax=2)
+    out = gen.draw_signature(data, d, kmax=1, min_types=1, max_types=2, cmax=2)
+    n = data.draw(st.sampled_from([4, 6]), label="n_samples")
+    return {
+        "cls": "GroupAverage", "no_translation": True, "d": d, "G": data.draw(st.sampled_from(["B", "SO", "C2", "Z2"]), label="G"), "in_sig": sig, "out_sig": out, "N": 4,
+        "torus": data.draw(st.booleans(), label="torus"), "nested": data.draw(st.booleans(), label="nested"),
+        "always_average": data.draw(st.booleans(), label="always_average"), "group_norm": False, "bias": "auto", "num_downsamples": 0, "seed": data.draw(st.integers(0, 9999), label="seed"),
+        "n_samples": n, "batch_size": data.draw(st.sampled_from([1, 2]), label="batch_size"), "opt": data.draw(st.sampled_from(["sgd", "adam", "adamw"]), label="opt"),
+        "lr": data.draw(st.sampled_from([0.01, 0.03]), label="lr"), "wd": 0.1, "loss": "smse", "epochs": data.draw(st.integers(1, 2), label="epochs"), "driver": "train",
+        "pseed": data.draw(st.integers(0, 99999), label="pseed"), "xseed": data.draw(st.integers(0, 99999), label="xseed"), "gs": [gen.draw_g(data, d, "g") for _ in range(3)],
+    }
+
+
+def _build_average_model(cfg):
+    d = cfg["d"]
+    in_sig, out_sig = gen.sig_tuple(cfg["in_sig"]), gen.sig_tuple(cfg["out_sig"])
+    k1, k2 = random.split(random.PRNGKey(cfg["seed"]))
+    G = netgen.group_ops(d, cfg["G"])
+    mid = in_sig
+    inner = models.ResNet(d, mid, out_sig, depth=2, num_blocks=1, num_conv=1, equivariant=False, kernel_size=3, use_group_norm=False, key=k1)
+    avg = models.GroupAverage(inner, G, always_average=cfg["always_average"], inference=False)
+    if cfg["nested"]:
+        bank = netgen.bank(d, cfg["G"] if cfg["G"] != "Z2" else "C2", (3,), (0, 1, 2))
+        stem = models.ConvBlock(d, in_sig, mid, "auto", "gelu", True, bank, key=k2)
+        model = _Composite(stem, avg)
+    else:
+        model = avg
+    # averaging "at inference time": switch every inference flag on, which is what makes the model equivariant
+    return eqx.nn.inference_mode(model)
+
+
 def draw_case(data, tier):
+    if data.draw(st.integers(0, 3), label="family") == 0:
+        return _draw_average_cfg(data, tier)
     cfg = netgen.draw_model_cfg(data, tier, equivariant=True, classes=["ConvBlock", "ResNet", "ResNet", "UNet", "DilResNet"])
     cfg["depth"] = min(cfg["depth"], 2)
+    for m in cfg.get("mid_sig", []):
+        m[1] = cfg["depth"]  # explicit mid_keys carry `depth` channels
     cfg["num_blocks"] = 1
     if cfg["cls"] == "UNet":
         cfg["num_downsamples"] = 1
@@ -69,10 +122,15 @@ def run_case(cfg):
     d = cfg["d"]
     labels = ["cls_" + cfg["cls"], f"d{d}", "G_" + cfg["G"], "opt_" + cfg["opt"], "loss_" + cfg["loss"], "driver_" + cfg["driver"], "norm" if cfg["group_norm"] else "nonorm", f"bias_{cfg['bias']}"]
     key = [netgen.cfg_key({k: v for k, v in cfg.items() if k not in ("pseed", "xseed", "gs")})]
-    reach = netgen.simulate_types(cfg)
-    if reach is None or not reach:
-        return result(None, False, key, labels + ["no_reachable_output"])
-    model0 = netgen.perturb(netgen.build_model(cfg), cfg["pseed"], 0.2)
+    if cfg["cls"] == "GroupAverage":
+        labels += ["nested" if cfg["nested"] else "toplevel", "always_average" if cfg["always_average"] else "inference_flag"]
+        reach = list(gen.sig_tuple(cfg["out_sig"]))
+        model0 = netgen.perturb(_build_average_model(cfg), cfg["pseed"], 0.1)
+    else:
+        reach = netgen.simulate_types(cfg)
+        if reach is None or not reach:
+            return result(None, False, key, labels + ["no_reachable_output"])
+        model0 = netgen.perturb(netgen.build_model(cfg), cfg["pseed"], 0.2)
     banks0 = netgen.bank_leaves(model0)
     n = cfg["n_samples"]
     shp = netgen.model_shape(cfg)
